@@ -138,7 +138,7 @@ def _cases(draw, tier):
         cfg.setdefault('predefined', {})['data'] = blocks
     return {'isa': cfg, 'items': items, 'lo': lo, 'relations': [r[2] for r in ranges], 'nzero': nzero,
             'fill': draw(st.sampled_from([0, 0xEE])), 'tailored_zones': len(tailored), 'nmuted': nmuted,
-            'mode': draw(st.sampled_from(['binary', 'binary', 'no-binary']))}
+            'mode': draw(st.sampled_from(['binary', 'binary', 'no-binary', 'narrow-window']))}
 
 
 def strategy(tier):
@@ -161,6 +161,12 @@ def execute(case, ctx):
     except R.Unspecified as u:
         return Outcome(classes=['unspecified:' + str(u).split(':')[0]], evals=0, excluded=['unspecified: ' + str(u).split(':')[0]])
     argv = ['compile', '-c', fname, '-o', 'out.bin', '-s', str(lo), '-e', str(hi), '-f', str(case['fill']), 'main.asm']
+    if case.get('mode') == 'narrow-window':
+        # the image window ends below most of the program: lines outside it collide all the same
+        hi = lo
+        if want is not None:
+            want = want[:1]
+        argv = ['compile', '-c', fname, '-o', 'out.bin', '-s', str(lo), '-e', str(hi), '-f', str(case['fill']), 'main.asm']
     nobin = case.get('mode') == 'no-binary'
     if nobin:
         # overlap is an error whether or not an image is asked for
@@ -191,6 +197,6 @@ def execute(case, ctx):
     nt = bool(rels - {'first', 'far'}) or case['nzero'] > 0
     classes = ['model:' + ('overlap' if overlap_expected else verdict), 'outcome:' + res.klass] + \
               ['rel:' + r for r in sorted(rels)] + (['zero-length-lines'] if case['nzero'] else []) + \
-              (['mode:no-binary'] if nobin else []) + (['muted-ranges'] if case.get('nmuted') else []) + (['zones-cut-to-measure'] if case.get('tailored_zones') else [])
+              (['mode:no-binary'] if nobin else []) + (['mode:narrow-window'] if case.get('mode') == 'narrow-window' else []) + (['muted-ranges'] if case.get('nmuted') else []) + (['zones-cut-to-measure'] if case.get('tailored_zones') else [])
     sample = {'source': files['main.asm'], 'relations': case['relations'], 'model': detail['model']}
     return Outcome(findings, nt, classes, 1, sample=sample)
